@@ -480,9 +480,14 @@ def run_repeats(task):
                     return buf
                 return v
             try:
-                rs, xs = estimate_from_repeats(
-                    gen, rtol=rtol, tol_scale=ts, min_samples=mn,
-                    max_samples=mx, get="samples")
+                # (how much is printed has no say in when to stop)
+                # (array-valued samples cannot be printed: quiet there)
+                verb = core.pick([list(seq), rtol, mn, "verb"], 3) \
+                    if form in (0, 1, 5) else 0
+                with core.Silence():
+                    rs, xs = estimate_from_repeats(
+                        gen, rtol=rtol, tol_scale=ts, min_samples=mn,
+                        max_samples=mx, get="samples", verbosity=verb)
             except Exception as e:
                 out["vio"].setdefault(tag + "raised:" + type(e).__name__, (
                     [list(seq), rtol, ts, mn, mx], repr(e)))
